@@ -63,7 +63,8 @@ def gen_script(rng, cfg, hb=0.004, focus=None):
         script += gap(rng, hb)
         c = rng.random()
         if focus == 'login':
-            reply = rng.choice([[('msg', 0)], [('msg', 0)], [('msg', REJECT_N)], [('msg', next_msg[0])], ['logout'], ['bad'], ['hb', ('msg', 0)], []])
+            reply = rng.choice([[('msg', 0)], [('msg', 0)], [('msg', REJECT_N)], [('msg', next_msg[0])], ['logout'], ['bad'], ['hb', ('msg', 0)], [],
+                                [('msg', 5000), ('msg', 0)], [('msg', 5001), ('msg', 0)], ['hb', ('msg', 5005)]])
         else:
             reply = [('msg', 0)] if c < 0.85 else rng.choice([[('msg', REJECT_N)], ['logout'], []])
         tail = frames(rng.randint(0, 3)) if rng.random() < 0.5 else []     # data piggy-backed on the reply
